@@ -140,20 +140,21 @@ theorem gap_zero_prob {u p : ℝ} (hu : 0 < u ∧ u ≤ 1) (hp : 0 < p ∧ p < 1
 /-! ### non-vacuity -/
 
 example : allChoices 1 3 = [[0, 0], [0, 1], [0, 2], [1, 0], [1, 1], [1, 2]] := by decide
-example : (allChoices 1 3).map (runPlain 1 3) = [#[0], #[0], #[2], #[1], #[1], #[2]] := by decide
+example : (allChoices 1 3).map (runPlain 1 3) = [#[2], #[1], #[1], #[2], #[0], #[0]] := by decide
 example : (allChoices 2 4).length = 12 ∧ runPlain 2 4 [1, 3] = #[0, 2] ∧
     runPlain 2 4 [2, 0] = #[3, 1] := by decide
 -- k = 2, n = 4: every position is in 6 of the 12 outcomes (4 · 6 = 2 · 12)
 example : (List.range 4).map (fun p =>
-    (allChoices 2 4).countP fun js => decide (p ∈ runPlain 2 4 js)) = [6, 6, 6, 6] := by decide
+    (allChoices 2 4).countP fun js => decide (p ∈ runPlain 2 4 js)) = [6, 6, 6, 6] := by
+  decide +kernel
 -- k = 1, n = 5 with gap outcomes [0,1,2,3,7]: every position in 24 of 120 outcomes (5 · 24 = 120)
 example : (switchSpace 1 [0, 1, 2, 3, 7]).length = 120 ∧
-    runSwitch 1 [0, 1, 2] 0 0 = #[4] ∧ runSwitch 1 [0, 1, 2] 3 0 = #[0] := by decide
+    runSwitch 1 [0, 1, 2] 0 0 = #[4] ∧ runSwitch 1 [0, 1, 2] 3 0 = #[1] := by decide +kernel
 example : (List.range 5).map (fun p => (switchSpace 1 [0, 1, 2, 3, 7]).countP
-    fun x => decide (p ∈ runSwitch 1 x.1 x.2.1 x.2.2)) = [24, 24, 24, 24, 24] := by decide
+    fun x => decide (p ∈ runSwitch 1 x.1 x.2.1 x.2.2)) = [24, 24, 24, 24, 24] := by decide +kernel
 -- a biased gap (2 zeros out of 5) is *not* uniform: the hypothesis `gs.count 0 = k` matters
 example : (List.range 5).map (fun p => (switchSpace 1 [0, 0, 2, 3, 7]).countP
-    fun x => decide (p ∈ runSwitch 1 x.1 x.2.1 x.2.2)) = [18, 18, 18, 18, 48] := by decide
+    fun x => decide (p ∈ runSwitch 1 x.1 x.2.1 x.2.2)) = [18, 18, 18, 18, 48] := by decide +kernel
 -- an accepting state: k = 1, item 4 accepted with gap 2 ⇒ items 5, 6 skipped, item 7 accepted
 example : (run replay 1 ([0, 2, 1], [0, 0, 0, 0, 0]) 5).map (fun s => (s.res, s.i, s.skipUntil)) =
     some (#[4], 5, 7) := by decide
